@@ -214,7 +214,10 @@ func overlongFan(runBytes, branches int) []string {
 	for i := 0; i < branches; i++ {
 		k = append(k, p+string([]byte{byte(0x10 + i*13)}))
 	}
-	k = append(k, p+string([]byte{0x10})+"tail", "b")
+	k = append(k, p+string([]byte{0x10})+"tail")
+	if branches <= 10 {
+		k = append(k, "b") // (a byte-wide node after the run needs a byte-wide root: no other key then)
+	}
 	return sortUniq(k)
 }
 
